@@ -48,6 +48,7 @@ type FuncContract struct {
 	Calls    []CallReq
 	Strings  string
 	Overflow bool
+	Encodable bool // `check encodable`: every value boxed into an interface is JSON-encodable (static type) and every boxed float is a number
 	Monitor  string
 	Cut      string // "select": paths reaching unmodelled concurrency instrs end silently
 	Trusted  bool   // contract assumed, body not verified (listed in evidence)
@@ -413,6 +414,9 @@ func (C *Contracts) loadContractFile(path string, defaultPkg string) error {
 		case "check":
 			if strings.TrimSpace(rest) == "overflow" {
 				cur.Overflow = true
+			}
+			if strings.TrimSpace(rest) == "encodable" {
+				cur.Encodable = true
 			}
 		case "monitor":
 			cur.Monitor = strings.TrimSpace(rest)
